@@ -71,6 +71,12 @@ CHECKS = {
     note="Trusted: TLC; harness member encoder, BGZF/BAM framing parsers. BAM files come from the library's own writer (validated separately by C05/C08/C12).",
     technique="TLA+ I-spec of ChunkReader checked exhaustively by TLC + TLC trace validation of ChunkReader, SetChunk and Iterator runs",
     engine="BgzfReader"),
+ "C16": dict(
+    category="model_checking", design_ref="DESIGN.md §5 C16",
+    text="Cigar.tla and Bins.tla give End, Len, CIGAR reference/query lengths, validity, the BAM bin and the BAI/CSI bin scheme from the specification texts; TLC checks on small geometries that an interval's bin is in the bin list of every overlapping interval and that Reg2Bin(b, .) is constant between ends with equal bins; recorded results of the real Record.End/Len/Bin, Cigar.Lengths/IsValid, BinFor/OverlappingBinsFor (via verif re-exports) and csi reg2bin/reg2bins are validated by TLC, the bin functions as run-length rows whose run ends are checked (tile-exhaustive for BAI in the thorough tier, exhaustive over all pairs for small CSI geometries).",
+    note="Trusted: TLC; the harness's run-length compression of real evaluations. 32-bit TLC integers bound positions below 2^29 + lengths < 2^31.",
+    technique="TLA+ specification of the coordinate/bin arithmetic, TLC lemmas on small geometries + TLC trace validation of real function results (run-length exhaustive)",
+    engine="Coord"),
 }
 NA_REASON = "check not built yet in this round (specification work in progress; see DESIGN.md §10 build order)"
 
@@ -101,8 +107,9 @@ def main():
         not_applicable=na)
     json.dump(m, open(os.path.join(V, "MANIFEST.json"), "w"), indent=1)
 
-HOOK_COMMITS = ["4b6c86a", "f712ea4", "5dd3b6c"]
+HOOK_COMMITS = ["4b6c86a", "f712ea4", "5dd3b6c", "b7bc5fc"]
 ENGINES = [
+ dict(name="Coord", path="spec/Coord", serves_properties=["C16", "C04"], kind_free_text="TLA+ Cigar/Bins + TLC lemmas + trace validation"),
  dict(name="BgzfReader", path="spec/BgzfReader", serves_properties=["C01", "C02", "C03", "C09", "C10", "C13"], kind_free_text="TLA+ ReaderP/ReaderI + TLC MC + API trace validation"),
  dict(name="BgzfWriter", path="spec/BgzfWriter", serves_properties=["C01", "C08", "C09", "C12"], kind_free_text="TLA+ WriterP/WriterI/WriterPlan + TLC MC + API trace validation"),
  dict(name="BlockCache", path="spec/BlockCache", serves_properties=["C14", "C03"], kind_free_text="TLA+ CacheP/CacheI/CacheLin + TLC MC + trace validation + linearizability search"),
